@@ -268,6 +268,7 @@ func genC19(out, tier string, rng *rand.Rand) {
 	notes, ops := lockStress(dur, rng.Int63())
 	churnNotes, churnOps := lockChurn(dur, rng.Int63())
 	notes = append(notes, churnNotes...)
+	notes = append(notes, lockMisuse(dur)...)
 	extra["churn_lock_calls"] = churnOps
 	patience := 6 * time.Second
 	if tier == "thorough" {
@@ -445,6 +446,73 @@ func lockChurn(d time.Duration, seed int64) ([]string, int64) {
 		note("%d entries left in the map after every caller has finished", n)
 	}
 	return notes, atomic.LoadInt64(&calls)
+}
+
+// lockMisuse: callers that Unlock a key they do not hold (while its owner locks and unlocks it) may get
+// a panic, and may at worst upset that key; the sole users of OTHER keys must never notice: their
+// Lock succeeds, their Unlock does not panic.
+func lockMisuse(d time.Duration) []string {
+	m := gcsutil.NewTransientLockMap()
+	var mu sync.Mutex
+	var notes []string
+	note := func(f string, a ...interface{}) {
+		mu.Lock()
+		if len(notes) < 5 {
+			notes = append(notes, "misuse: "+fmt.Sprintf(f, a...))
+		}
+		mu.Unlock()
+	}
+	stop := time.Now().Add(d)
+	var wg sync.WaitGroup
+	quiet := func(f func()) {
+		defer func() { _ = recover() }()
+		f()
+	}
+	wg.Add(3)
+	go func() { // the owner of "m"
+		defer wg.Done()
+		for time.Now().Before(stop) {
+			ctx, cancel := context.WithTimeout(context.Background(), 5*time.Millisecond)
+			if m.Lock(ctx, "m") {
+				quiet(func() { m.Unlock("m") })
+			}
+			cancel()
+		}
+	}()
+	for g := 0; g < 2; g++ { // unlock what they do not hold
+		go func() {
+			defer wg.Done()
+			for time.Now().Before(stop) {
+				quiet(func() { m.Unlock("m") })
+			}
+		}()
+	}
+	for g := 0; g < 6; g++ {
+		wg.Add(1)
+		go func(g int) {
+			defer wg.Done()
+			for n := 0; time.Now().Before(stop); n++ {
+				key := fmt.Sprintf("j%d-%d", g, n%3) // fresh keys all the time: entries are created and evicted
+				ctx, cancel := context.WithTimeout(context.Background(), time.Second)
+				ok := m.Lock(ctx, key)
+				cancel()
+				if !ok {
+					note("the only user of key %q could not lock it within a second", key)
+					continue
+				}
+				func() {
+					defer func() {
+						if p := recover(); p != nil {
+							note("Unlock of key %q by its only user and holder panicked: %v", key, p)
+						}
+					}()
+					m.Unlock(key)
+				}()
+			}
+		}(g)
+	}
+	wg.Wait()
+	return notes
 }
 
 // patientWaiters: a Lock and a Run queued behind a holder with a context that never ends wait as long
